@@ -203,7 +203,8 @@ pub fn iter_filter<const NI: usize, const NF: usize, const NI2: usize>() {
 
 /// (d) empty integer part, Z leading fraction zeros, more than 19 digits: the FRACTION through a cursor, a chain and a
 /// sentinel filter (the zero-skipping and the 20th-digit logic must not depend on the iterator's shape or addresses)
-pub fn iter_fraction<const NF: usize, const Z: usize, const NF2: usize>() {
+pub fn iter_fraction<const NF: usize, const Z: usize, const NF2: usize, const MODE: usize>() {
+    // MODE 0: cursor, 1: chain, 2: filter (one extra run of the real code per harness keeps CBMC within budget)
     let mut frac: [u8; NF] = any_digits();
     let mut z = 0;
     while z < Z && z < NF {
@@ -216,20 +217,24 @@ pub fn iter_fraction<const NF: usize, const Z: usize, const NF2: usize>() {
     let e: i32 = kani::any();
     let empty: [u8; 0] = [];
     let base = verif_parse_number(empty.iter(), frac.iter(), e);
-    let c = verif_parse_number(empty.iter(), Cursor { data: &frac, pos: 0 }, e);
-    assert!(c == base);
-    let k: usize = NF / 2;
-    let ch = verif_parse_number(empty.iter(), frac[..k].iter().chain(frac[k..].iter()), e);
-    assert!(ch == base);
-    let mut with = [b'_'; NF2];
-    let p: usize = 1;
-    let mut i = 0;
-    while i < NF {
-        with[if i < p { i } else { i + 1 }] = frac[i];
-        i += 1;
+    if MODE == 0 {
+        let c = verif_parse_number(empty.iter(), Cursor { data: &frac, pos: 0 }, e);
+        assert!(c == base);
+    } else if MODE == 1 {
+        let k: usize = NF / 2;
+        let ch = verif_parse_number(empty.iter(), frac[..k].iter().chain(frac[k..].iter()), e);
+        assert!(ch == base);
+    } else {
+        let mut with = [b'_'; NF2];
+        let p: usize = 1;
+        let mut i = 0;
+        while i < NF {
+            with[if i < p { i } else { i + 1 }] = frac[i];
+            i += 1;
+        }
+        let f = verif_parse_number(empty.iter(), with.iter().filter(|&&b| b != b'_'), e);
+        assert!(f == base);
     }
-    let f = verif_parse_number(empty.iter(), with.iter().filter(|&&b| b != b'_'), e);
-    assert!(f == base);
 }
 
 /// C08: arbitrary bytes (no digit assumption, leading/trailing zeros allowed): no memory-safety violation; a clean
